@@ -138,6 +138,25 @@ class Ctx:
     def note(self, s: str) -> None:
         self.notes.append(s)
 
+    def delegated(self, where: Def) -> list[str]:
+        """private helpers `where` calls that the reference call table does not list for it:
+        when a clause finds nothing in `where`, the thing may have moved there"""
+        from .mkreference import new_private_callees
+
+        return new_private_callees(self.repo, where.qual)
+
+    def present(self, where: Def, found, what: str) -> bool:
+        """`found` is what a clause looked for in `where`.  Found: True.  Not found and `where`
+        delegates to helpers the rule was never confirmed against: ANALYSIS-ERROR.  Not found
+        and nothing new is delegated: False — the absence is established, the caller reports
+        the violation."""
+        if found:
+            return True
+        new = self.delegated(where)
+        if new:
+            raise AnalysisError(f"[{self.spec.rid}] {what} — not found in {where.name}, which now delegates to {', '.join(new)} (not followed)")
+        return False
+
     def need(self, cond, what: str):
         """Anchor assertion: failing it means the checker no longer understands the code."""
         if not cond:
